@@ -78,6 +78,9 @@ def probe(sh, w, program, sr, ctx):
 
 
 def run_shard(sh):
+    from .swapcases import run_swap_cases
+    run_swap_cases(sh, lambda d: d['kind'] in KINDS and d.get('phase', 'clean') == 'clean', 'C12',
+                   nested_cache=sh.idx % 2 == 1)
     from ..gen import program_shape
     shapes = {}
 
